@@ -3,18 +3,26 @@
 import json, sys
 pid, tag = sys.argv[1], sys.argv[2]
 USED = {
- "C01": "truncating the flat group size product to the numInGroup type",
- "C02": "advancing the validator's running offset by += instead of = for composite members with explicit offsets",
- "C03": "using the field's own presence attribute instead of the actual presence when deciding whether an entry is constant-only",
+ "C01": "truncating the flat group size product to the numInGroup type; filling numVarDataFields with the group count",
+ "C02": "advancing the validator's running offset by += instead of = for composite members with explicit offsets; deriving the accessor of the 3rd+ sibling group from the first group",
+ "C03": "using the field's own presence attribute instead of the actual presence when deciding whether an entry is constant-only; emitting the ordinary (sizeof-advancing) cursor accessor for a last field of built-in primitive type",
  "C04": "nested group cursor_subrange(c, pos) passing size() as the length",
- "C05": "typing the trait-level size_bytes count parameters with the blockLength type",
- "C06": "saving the parent group's block length after it was overwritten in size_bytes_checked's on_group",
- "C10": "re-introducing sizeof(length)+size() overflow in dynamic_array_ref::data_checked",
- "C12": "casting the block length to the group's difference_type in the iterator's operator+=",
- "C13": "erase(first,last) copying new_size elements instead of the tail",
- "C16": "rewriting <=, >, >= of pre-C++20 optionals in terms of <",
- "C17": "filling a group's numVarDataFields with the nested group count",
- "C19": "member-less visit_children advancing the cursor with += block_length",
+ "C05": "typing the trait-level size_bytes count parameters with the blockLength type; locating the 3rd+ <data> member after the first data member",
+ "C06": "saving the parent group's block length after it was overwritten in size_bytes_checked's on_group; member-less visit_children advancing with += block_length",
+ "C07": "the 'previous view' lambda calling NAME() unqualified so that a member named like a local clashes",
+ "C08": "value_fits_into_type parsing uint32 as uint64",
+ "C09": "validate_data_header consulting the group-header cache",
+ "C10": "re-introducing sizeof(length)+size() overflow in dynamic_array_ref::data_checked; static_array_ref::raw() dropping the end pointer",
+ "C11": "guarding the last-enum / last-set cursor setter with cursor_compatible instead of cursor_writeable",
+ "C12": "casting the block length to the group's difference_type in the iterator's operator+=; building end() as begin()+difference_type(size())",
+ "C13": "erase(first,last) copying new_size elements instead of the tail; resize(count,value) filling count elements from the old end",
+ "C14": "the constant-evaluation branch of string_length counting the terminator; pad() skipping the single NUL when exactly one element is left",
+ "C15": "casting after the shift (static_cast<T>(b << n) / static_cast<T>(1 << n)) in the choice setter or getter",
+ "C16": "rewriting <=, >, >= of pre-C++20 optionals in terms of <; treating every NaN as null for floating-point optionals",
+ "C17": "filling a group's numVarDataFields with the nested group count; typing fill_group_header's count parameter with the blockLength type",
+ "C18": "set choice since_version taken from the enclosing set",
+ "C19": "member-less visit_children advancing the cursor with += block_length; visit_children of a composite reporting constant members",
+ "C20": "write_file checking only operator<< and letting the destructor close the file",
 }
 
 p = [json.loads(l) for l in open('/verif/properties.jsonl') if json.loads(l)['id'] == pid][0]
@@ -35,7 +43,7 @@ RULES
     ctest --test-dir {wt}/_build -j16 --timeout 900 2>&1 | tail -3        # must report 100% tests passed (4311 tests)
   The built compiler is {wt}/_build/sbeppc/sbeppc (usage: sbeppc --output-dir <dir> [--schema-name <name>] <schema.xml>); generated headers need -I{wt}/sbepp/src and -I<dir>. Example schemas are in {wt}/test/schemas/. There is no network; use only what is installed (g++ 12, clang++ 14, cmake, ninja, python3).
 - The change must be the kind of thing a maintainer could plausibly write (a refactoring slip, a wrong operand, an off-by-one, a wrong variable, a dropped case, a cast in the wrong place, two sites that each look fine alone) — NOT a deliberate sabotage like `if(x==42)`, not a deleted feature, and not something ordinary use would expose at once. Prefer a defect that needs something SPECIFIC to manifest: an unusual but valid schema shape (custom offsets, explicit blockLength, big-endian, an unusual header/dimension integer type, constants, nested groups, zero-length things), a particular operation sequence or state, a particular value class (negative, max, NaN, high bit), a particular language standard. Keep the diff small (a few lines).
-- An earlier round already used this idea for this property, so pick something in a DIFFERENT part of the code / a different mechanism: {USED_IDEA}.
+- Earlier rounds already used these ideas for this property, so pick something in a DIFFERENT part of the code / a different mechanism: {USED_IDEA}.
 - The existing test suite MUST still pass with your change (run it; if it fails, pick another change). 
 - Write a demonstration: a small self-contained C++ program (or shell script driving sbeppc + a C++ program) that exits 0 on the ORIGINAL code and non-zero (or prints a clear mismatch) with your change. Verify both outcomes yourself (you can check the original behaviour using /repo's own headers or by `git stash` in your worktree).
 
